@@ -16,7 +16,7 @@ defaults) is done by ``Simulator.__init__`` itself, i.e. by repository code.
 import collections
 
 from migen.fhdl.structure import (Constant, Signal, Cat, Replicate, If, Case, Display, ClockSignal,
-                                  ResetSignal, _Operator, _Slice, _ArrayProxy, _Assign, _Value)
+                                  ResetSignal, _Operator, _Slice, _ArrayProxy, _Assign, _Value, _Fragment)
 from migen.fhdl.bitcontainer import value_bits_sign
 from migen.fhdl.tools import list_targets, list_signals
 from migen.fhdl.specials import _MemoryLocation
@@ -255,6 +255,16 @@ class _RecordingMultiReg:
         return impl
 
 
+def _signame(s):
+    bt = getattr(s, "backtrace", None)
+    return s.name_override or (bt[-1][0] if bt else "?")
+
+
+class _DuidOrderedSet(set):
+    def __iter__(self):
+        return iter(sorted(set.__iter__(self), key=lambda x: x.duid))
+
+
 class Stepper:
     """One elaborated DUT.  ``inputs``/``outputs`` are lists of Signals (or expressions for
     outputs).  State = values of all sync targets (memories included), ordered by duid."""
@@ -267,7 +277,12 @@ class Stepper:
         if record_multireg:
             _RecordingMultiReg.log = self.multiregs
             overrides[MultiReg] = _RecordingMultiReg
-        self.sim = Simulator(dut, [], clocks={cd: 10 for cd in clocks}, special_overrides=overrides)
+        # migen's MemoryToArray iterates the raw `specials` set (id-hash order): with two or more
+        # memories the order in which the array signals are created - and with it the duid order of
+        # the state registers - would differ from process to process.  Iterate in duid order.
+        frag = dut if isinstance(dut, _Fragment) else dut.get_fragment()
+        frag.specials = _DuidOrderedSet(frag.specials)
+        self.sim = Simulator(frag, [], clocks={cd: 10 for cd in clocks}, special_overrides=overrides)
         _RecordingMultiReg.log = None
         self.f = self.sim.fragment
         self.ev = self.sim.evaluator
@@ -286,6 +301,7 @@ class Stepper:
             if s in regs or s in comb_t:
                 raise ValueError("input signal %r is driven by the DUT" % s)
         self.reset_state = tuple(s.reset.value for s in self.regs)
+        self.sig = hash(tuple((_signame(s), s.nbits) for s in self.regs))
         self.engine = engine
         self.reg_names = None
         if engine == "compiled":
